@@ -19,6 +19,22 @@ _COMPONENTS_MCACHE = {
 }
 
 CHECKS = {
+    "C17": {
+        "engine": "alias_hist",
+        "level": "exploration",
+        "rule": "Seeded histories of 2-14 add / remove / copy operations over 3-6 variable names with both signs, "
+                "operations addressed to a plan-chosen replica (copies, copies of copies); add pairs that would relate a "
+                "variable to its own negation are skipped as the property excludes them. After every operation every "
+                "replica is compared with a signed union-find for every signed name (aliases, canonical_signed, "
+                "canonical_variables, iteration). distinct_nontrivial = distinct (signed partition before, operation) "
+                "pairs with a non-trivial class before or after.",
+        "assumptions": ["sampling, not exhaustive exploration up to state equivalence (that would be model checking); the "
+                        "number of distinct abstract states reached is reported so saturation is visible",
+                        "remove of a non-canonical name: the property is silent, the reference accepts 'no change' or "
+                        "'whole class dissolved' and flags anything else"],
+        "components": {"real": ["pymoca.backends.casadi.alias_relation.AliasRelation from the working tree"],
+                       "simulated": ["replicas (copy) and which replica an operation goes to"], "stub": []},
+    },
     "C19": {
         "engine": "mcache",
         "level": "exploration",
@@ -89,6 +105,15 @@ CHECKS = {
 }
 
 MANIFEST_TEXT = {
+    "C17": {
+        "level_text": "Seeded operation histories over replicas of an AliasRelation checked after every step against a "
+                      "signed union-find reference model; there is no fault dimension in this component, the simulated "
+                      "parties are the replicas created by copy().",
+        "design_ref": "DESIGN.md 3.C17",
+        "level_note": "Samples histories; the reference follows the implementation's choice of canonical member but checks "
+                      "it is a member, shared by the class and sign-consistent.",
+        "technique": "deterministic simulation: seeded multi-replica operation histories vs a sequential reference model",
+    },
     "C19": {
         "level_text": "Storage round trip (save, simulated restart, load) of a model pool x option sets, every load compared "
                       "numerically with a fresh compile (variables, types, attributes at seeded parameter points, outputs, "
@@ -170,7 +195,6 @@ NOT_APPLICABLE = {
     # claimed in DESIGN.md, engines not built yet: listed here until their checks are registered
     "C05": "in-family engine (flatten_hist) designed in DESIGN.md but not built yet",
     "C06": "in-family engine (copy_hist) designed in DESIGN.md but not built yet",
-    "C17": "in-family engine (alias_hist) designed in DESIGN.md but not built yet",
     "C26": "in-family engine (cli_faults) designed in DESIGN.md but not built yet",
     "C27": "in-family engine (lib_order) designed in DESIGN.md but not built yet",
 }
